@@ -49,8 +49,11 @@ def read_service_meta(sid: str) -> dict:
 
 
 def write_service_meta(sid: str, meta: dict):
-    with open(_PROGRAM_PATH.joinpath(sid).joinpath("service_meta"), "wb") as f:
+    # write a sibling file and rename it, a crash must not leave a truncated state file
+    tmp_path = _PROGRAM_PATH.joinpath(sid).joinpath("service_meta.tmp")
+    with open(tmp_path, "wb") as f:
         pickle.dump(meta, f)
+    tmp_path.replace(_PROGRAM_PATH.joinpath(sid).joinpath("service_meta"))
 
 
 def read_encrypted_database(sid: str) -> bytes:
